@@ -5,6 +5,8 @@
 set -u
 name=$1; mdir=$2; dpkg=$3; rx=$4; shift 4; pkgs="$*"
 export GOFLAGS=-mod=mod GOPROXY=off GOSUMDB=off GOTOOLCHAIN=local
+# every go test runs in its own network namespace (loopback only): several suites bind fixed ports (coordinator: 127.0.0.1:7777)
+nt() { unshare -n sh -c 'ip link set lo up; exec "$@"' sh "$@"; }
 wt=/tmp/confirm-$name
 git -C /repo worktree remove --force $wt >/dev/null 2>&1
 git -C /repo worktree add --detach $wt HEAD >/dev/null 2>&1 || { echo "worktree failed"; exit 2; }
@@ -13,14 +15,14 @@ cd $wt
 demo=$(ls $mdir/*_test.go | head -1)
 cp $mdir/*_test.go $dpkg/
 # without the change: demo passes
-go test -vet=off -count=1 -run "$rx" ./$dpkg > /tmp/confirm-$name.clean.log 2>&1; rc_clean=$?
+nt go test -vet=off -count=1 -run "$rx" ./$dpkg > /tmp/confirm-$name.clean.log 2>&1; rc_clean=$?
 git apply $mdir/patch.diff || { echo "CONFIRM $name: patch does not apply"; exit 1; }
 go build ./... > /tmp/confirm-$name.build.log 2>&1; rc_build=$?
-go test -vet=off -count=1 -run "$rx" ./$dpkg > /tmp/confirm-$name.mut.log 2>&1; rc_mut=$?
+nt go test -vet=off -count=1 -run "$rx" ./$dpkg > /tmp/confirm-$name.mut.log 2>&1; rc_mut=$?
 rm -f $dpkg/$(basename $demo)
 for f in $mdir/*_test.go; do rm -f $dpkg/$(basename $f); done
 [ -z "$pkgs" ] && pkgs=$(git diff --name-only | xargs -n1 dirname | sort -u | sed 's|^|./|')
-go test -vet=off -count=1 $pkgs > /tmp/confirm-$name.suite.log 2>&1; rc_suite=$?
+nt go test -vet=off -count=1 $pkgs > /tmp/confirm-$name.suite.log 2>&1; rc_suite=$?
 line="CONFIRM $name: demo-clean rc=$rc_clean (want 0) build rc=$rc_build (want 0) demo-mutant rc=$rc_mut (want !=0) suite rc=$rc_suite (want 0) pkgs=$pkgs"
 echo "$line"
 if [ $rc_clean -eq 0 ] && [ $rc_build -eq 0 ] && [ $rc_mut -ne 0 ] && [ $rc_suite -eq 0 ]; then
